@@ -147,7 +147,8 @@ class World:
         def loom_has_rank(l):
             return any(p.rank is not None for p in l.procs)
         if all(loom_has_rank(l) for l in self.looms):
-            looms = sorted(self.looms, key=lambda l: min(p.rank for p in l.procs if p.rank is not None))
+            # (equal minimum ranks: by name; equal ranks inside a loom: by PID -- the metadata decides, never the paths)
+            looms = sorted(self.looms, key=lambda l: (min(p.rank for p in l.procs if p.rank is not None), l.name.encode()))
         else:
             looms = sorted(self.looms, key=lambda l: l.name.encode())
         trow = crow = 0
@@ -155,7 +156,7 @@ class World:
         for gi, l in enumerate(looms):
             l.gindex = gi
             if loom_has_rank(l):
-                procs = sorted(l.procs, key=lambda p: p.rank)
+                procs = sorted(l.procs, key=lambda p: (p.rank, p.pid))
             else:
                 procs = sorted(l.procs, key=lambda p: p.pid)
             for p in procs:
@@ -624,8 +625,9 @@ class Machine:
             body.owner = th
             stack.append(body)
             ss = th.chan[(model, ssch)]
-            if model == "nosv" and ss and ss[-1] == TASK_BODY_LABEL[model] and len(ss) < STACK_LIMIT:
-                # nOS-V documents nesting a body right over a paused one
+            if ss and ss[-1] == TASK_BODY_LABEL[model] and len(ss) < STACK_LIMIT:
+                # nesting a body right over a paused one (or a running one, with relaxed nesting) is a legal task
+                # history in both models (for Nanos6 a don't-care until finding F27 was repaired)
                 ss.append(TASK_BODY_LABEL[model])
             else:
                 self.push(th, model, ssch, TASK_BODY_LABEL[model])
